@@ -15,7 +15,8 @@ protocol (`lean/DashLive/Driver/Store.lean`):
   ("ak", kid, computed[, route, spelling]) PUT   /key   (route 0)  |  POST /key, the HTML form (route 1); `kid` is
                                           the canonical lower-case hex of the 16 bytes (what the model keys on),
                                           `spelling` how the request writes it: lower|upper|mixed|0x|dashes|0xdashes
-  ("as", dir, title[, route])             route 1: POST /streams/add (HTML form, field `prefix`)
+  ("as", dir, title[, route[, other]])    route 1: POST /streams/add (HTML form, field `prefix`); routes 2 (form) and
+                                          3 (JSON) send `prefix`=dir AND `directory`=other: the alias wins
   ("es", spk, dir, title, tref[, route])  route 1: POST /stream/<spk> as HTML form
   ("ek", kpk, computed)                   POST   /key/<kpk>
   ("dk", kpk)                             DELETE /key/<kpk>/delete
@@ -251,7 +252,7 @@ class World:
         js = r.get_json(silent=True) if r.is_json else None
         ok = False
         if k == "as":
-            ok = (st == 302) if (len(op) > 3 and op[3] == 1) else (st == 200 and isinstance(js, dict) and "pk" in js)
+            ok = (st == 302) if (len(op) > 3 and op[3] in (1, 2)) else (st == 200 and isinstance(js, dict) and "pk" in js)
         elif k == "es":
             ok = (st == 302) if (len(op) > 5 and op[5] == 1) else st == 200
         elif k == "ds":
@@ -295,6 +296,14 @@ class World:
     def _send(self, op):
         c, k = self.c, op[0]
         H = {"Authorization": f"Bearer {self.jwt}"}
+        if k == "as" and len(op) > 4 and op[3] in (2, 3):
+            # both spellings of the directory in one request: the legacy alias `prefix` (= op[1]) wins over
+            # `directory` (= op[4]); route 2 HTML form, route 3 JSON
+            body = {"title": title_text(op[2]), "directory": op[4], "prefix": op[1], "marlin_la_url": "",
+                    "playready_la_url": "", "csrf_token": self.token("streams")}
+            if op[3] == 2:
+                return c.post("/streams/add", data=body)
+            return c.put("/streams/add", json=body)
         if k == "as" and len(op) > 3 and op[3] == 1:
             return c.post("/streams/add", data={"title": title_text(op[2]), "prefix": op[1], "marlin_la_url": "",
                                                 "playready_la_url": "", "csrf_token": self.token("streams")})
